@@ -394,6 +394,24 @@ def text_render(ctx: Ctx, I: Interp) -> None:
                       "as_html_tags(lib_prefix=lib_prefix, include_version=include_version) over self._deps", where, f"as_html_tags kwargs { {k: short(v) for k, v in kw.items()} }",
                       "lib_prefix / include_version are not forwarded like HTMLDocument does")
     ctx.min_count("HTMLTextDocument.render paths", n, 1)
+    # render() without arguments means the same thing for both document classes
+    def _defaults(q: str) -> Dict[str, Any]:
+        f_ = prog.function(CORE, q)
+        a_ = f_.args
+        dm = dict(zip([x.arg for x in a_.args][len(a_.args) - len(a_.defaults):], a_.defaults))
+        dm.update({x.arg: d for x, d in zip(a_.kwonlyargs, a_.kw_defaults) if d is not None})
+        out: Dict[str, Any] = {}
+        for k_ in ("lib_prefix", "include_version"):
+            try:
+                out[k_] = prog.fold(dm[k_], prog.core()) if k_ in dm else "<required>"
+            except Exception:
+                out[k_] = "<unfoldable>"
+        return out
+    d1, d2 = _defaults("HTMLTextDocument.render"), _defaults("HTMLDocument.render")
+    ctx.check(d1 == d2, "C13.sibling", "HTMLTextDocument.render and HTMLDocument.render have the same defaults for lib_prefix / include_version", where,
+              f"text document {d1}; HTMLDocument {d2}",
+              f"render() called without arguments uses {d1} for a text document but {d2} for an HTMLDocument: the dependency URLs inserted by the two routes differ",
+              witness="HTMLTextDocument(html, deps=[d], deps_replace_pattern=p).render() vs HTMLDocument(d).render()")
 
 
 def instance_extract(ctx: Ctx, I: Interp) -> None:
